@@ -14,6 +14,7 @@
 extern crate rustc_abi;
 extern crate rustc_driver;
 extern crate rustc_hir;
+extern crate rustc_index;
 extern crate rustc_interface;
 extern crate rustc_middle;
 extern crate rustc_session;
@@ -588,7 +589,58 @@ impl<'tcx> Cx<'tcx> {
         }
     }
 
-    fn body_record(&self, ldid: LocalDefId, body: &Body<'tcx>, mir_kind: &str) -> String {
+    fn blocks_json(&self, body: &Body<'tcx>) -> String {
+        let mut blocks = Vec::new();
+        for (bbi, data) in body.basic_blocks.iter_enumerated() {
+            let mut stmts = Vec::new();
+            for st in &data.statements {
+                match &st.kind {
+                    StatementKind::Assign(b) => {
+                        let (lhs, rv) = &**b;
+                        let (sp, exp) = self.span_s(st.source_info.span);
+                        stmts.push(format!(
+                            "{{\"lhs\":{},\"rv\":{},\"sp\":{},\"exp\":{}}}",
+                            self.place(body, lhs),
+                            self.rvalue(body, rv),
+                            esc(&sp),
+                            opt_str(exp)
+                        ));
+                    }
+                    StatementKind::SetDiscriminant { place, variant_index } => {
+                        let (sp, exp) = self.span_s(st.source_info.span);
+                        stmts.push(format!(
+                            "{{\"setdiscr\":{},\"vi\":{},\"sp\":{},\"exp\":{}}}",
+                            self.place(body, place),
+                            variant_index.as_u32(),
+                            esc(&sp),
+                            opt_str(exp)
+                        ));
+                    }
+                    _ => {}
+                }
+            }
+            let term = match &data.terminator {
+                Some(t) => self.terminator(body, t),
+                None => "null".to_string(),
+            };
+            blocks.push(format!(
+                "{{\"i\":{},\"cleanup\":{},\"stmts\":{},\"term\":{}}}",
+                bbi.as_u32(),
+                data.is_cleanup,
+                arr(stmts),
+                term
+            ));
+        }
+        arr(blocks)
+    }
+
+    fn body_record(
+        &self,
+        ldid: LocalDefId,
+        body: &Body<'tcx>,
+        mir_kind: &str,
+        promoted: Option<&rustc_index::IndexVec<mir::Promoted, Body<'tcx>>>,
+    ) -> String {
         let tcx = self.tcx;
         let did = ldid.to_def_id();
         let kind = tcx.def_kind(did);
@@ -698,49 +750,24 @@ impl<'tcx> Cx<'tcx> {
             .collect();
         let _ = write!(o, ",\"locals\":{}", arr(locals));
         let _ = write!(o, ",\"dbg\":{}", arr(dbg));
-        // blocks
-        let mut blocks = Vec::new();
-        for (bbi, data) in body.basic_blocks.iter_enumerated() {
-            let mut stmts = Vec::new();
-            for st in &data.statements {
-                match &st.kind {
-                    StatementKind::Assign(b) => {
-                        let (lhs, rv) = &**b;
-                        let (sp, exp) = self.span_s(st.source_info.span);
-                        stmts.push(format!(
-                            "{{\"lhs\":{},\"rv\":{},\"sp\":{},\"exp\":{}}}",
-                            self.place(body, lhs),
-                            self.rvalue(body, rv),
-                            esc(&sp),
-                            opt_str(exp)
-                        ));
-                    }
-                    StatementKind::SetDiscriminant { place, variant_index } => {
-                        let (sp, exp) = self.span_s(st.source_info.span);
-                        stmts.push(format!(
-                            "{{\"setdiscr\":{},\"vi\":{},\"sp\":{},\"exp\":{}}}",
-                            self.place(body, place),
-                            variant_index.as_u32(),
-                            esc(&sp),
-                            opt_str(exp)
-                        ));
-                    }
-                    _ => {}
-                }
+        let _ = write!(o, ",\"blocks\":{}", self.blocks_json(body));
+        if let Some(proms) = promoted {
+            let mut ps = Vec::new();
+            for pb in proms.iter() {
+                let locals: Vec<String> = pb
+                    .local_decls
+                    .iter()
+                    .map(|d| format!("{{\"ty\":{},\"name\":null,\"user\":false}}", esc(&self.ty_s(d.ty))))
+                    .collect();
+                ps.push(format!(
+                    "{{\"locals\":{},\"blocks\":{}}}",
+                    arr(locals),
+                    self.blocks_json(pb)
+                ));
             }
-            let term = match &data.terminator {
-                Some(t) => self.terminator(body, t),
-                None => "null".to_string(),
-            };
-            blocks.push(format!(
-                "{{\"i\":{},\"cleanup\":{},\"stmts\":{},\"term\":{}}}",
-                bbi.as_u32(),
-                data.is_cleanup,
-                arr(stmts),
-                term
-            ));
+            let _ = write!(o, ",\"promoted\":{}", arr(ps));
         }
-        let _ = write!(o, ",\"blocks\":{}", arr(blocks));
+
         o.push('}');
         o
     }
@@ -898,19 +925,24 @@ impl Callbacks for FactsCallbacks {
                 | DefKind::Static { .. } => {}
                 _ => continue,
             }
-            let (steal, _promoted) = tcx.mir_promoted(ldid);
+            let (steal, promoted) = tcx.mir_promoted(ldid);
             if steal.is_stolen() {
                 n_stolen += 1;
                 // fall back to the optimized body for fns/closures
                 if matches!(kind, DefKind::Fn | DefKind::AssocFn | DefKind::Closure) {
                     let body = tcx.optimized_mir(did);
-                    let _ = writeln!(out, "{}", cx.body_record(ldid, body, "optimized"));
+                    let _ = writeln!(out, "{}", cx.body_record(ldid, body, "optimized", None));
                     n_body += 1;
                 }
                 continue;
             }
             let body = steal.borrow();
-            let _ = writeln!(out, "{}", cx.body_record(ldid, &body, "promoted"));
+            let proms = if promoted.is_stolen() { None } else { Some(promoted.borrow()) };
+            let _ = writeln!(
+                out,
+                "{}",
+                cx.body_record(ldid, &body, "promoted", proms.as_ref().map(|p| &**p))
+            );
             n_body += 1;
         }
         let _ = writeln!(
